@@ -41,10 +41,17 @@ func pushOp(data []byte, enc int) []byte {
 
 // buildScript returns the script bytes and the data pushes the grammar emitted
 // (nil slice entry for an empty push); parsable=false for truncated scripts.
-func buildScript(s scriptSpec, pool []HexBytes) (script []byte, pushes [][]byte, parsable bool) {
+// selfItemBase: item indices from here on denote the serialisation of one of the transaction's own
+// spent outpoints (a 36-byte data element that can only become relevant when that outpoint does).
+const selfItemBase = 10000
+
+func buildScript(s scriptSpec, pool []HexBytes, self ...[]byte) (script []byte, pushes [][]byte, parsable bool) {
 	item := func(i int) []byte {
 		if len(pool) == 0 || i >= len(s.Items) {
 			return []byte{1}
+		}
+		if s.Items[i] >= selfItemBase && len(self) > 0 {
+			return self[(s.Items[i]-selfItemBase)%len(self)]
 		}
 		return pool[((s.Items[i]%len(pool))+len(pool))%len(pool)]
 	}
@@ -196,7 +203,11 @@ func buildTxs(c c10Case) ([]*builtTx, error) {
 			b.inPsh = append(b.inPsh, pushes)
 		}
 		for oi, os := range t.Outs {
-			script, pushes, parsable := buildScript(os, c.Pool)
+			var self [][]byte
+			for _, in := range b.msg.TxIn {
+				self = append(self, outpointBytes(in.PreviousOutPoint.Hash[:], in.PreviousOutPoint.Index))
+			}
+			script, pushes, parsable := buildScript(os, c.Pool, self...)
 			got, err := txscript.PushedData(script)
 			if parsable != (err == nil) || (parsable && !pushesEqual(got, pushes)) {
 				return nil, hbug("grammar and txscript.PushedData disagree on output script %x: %v / %x vs %x", script, err, got, pushes)
@@ -546,6 +557,10 @@ func genScriptSpec(t *rapid.T, npool int, forInput bool) scriptSpec {
 			s.Items = append(s.Items, rapid.IntRange(0, npool-1).Draw(t, "it"))
 			s.Enc = append(s.Enc, rapid.IntRange(0, 2).Draw(t, "enc"))
 		}
+		if !forInput && n > 0 && rapid.IntRange(0, 5).Draw(t, "selfop") == 0 {
+			// an output that carries the serialisation of an outpoint this transaction spends
+			s.Items[0] = selfItemBase + rapid.IntRange(0, 3).Draw(t, "selfidx")
+		}
 		s.M = rapid.IntRange(0, 2).Draw(t, "tail")
 	case "unparsable":
 		n := rapid.IntRange(1, 2).Draw(t, "nu")
@@ -575,6 +590,29 @@ func genC10(t *rapid.T) c10Case {
 	c.Tweak = rapid.Uint32().Draw(t, "tweak")
 	c.Flags = byte(rapid.IntRange(0, 2).Draw(t, "flags"))
 	ntx := rapid.IntRange(1, 10).Draw(t, "ntx")
+	if rapid.IntRange(0, 5).Draw(t, "chainmode") == 0 {
+		// directed: a spend chain P -> Y1 -> Y2 ... in which every link becomes relevant only through its
+		// predecessor: P's output carries a watched item; each Yk spends the previous output and carries,
+		// as a data element, the serialisation of exactly the outpoint it spends.  Any block order.
+		depth := rapid.IntRange(2, 5).Draw(t, "depth")
+		c.Flags = 1
+		c.Len, c.K = 2000, 10
+		c.Txs = nil
+		c.Txs = append(c.Txs, c10Tx{Ins: []c10In{{Src: -1, Out: 0, Script: scriptSpec{Cls: "empty"}}},
+			Outs: []scriptSpec{{Cls: "pushes", Items: []int{5 % len(c.Pool)}, Enc: []int{0}}}})
+		for k := 1; k <= depth; k++ {
+			c.Txs = append(c.Txs, c10Tx{LockTime: uint32(k), Ins: []c10In{{Src: k - 1, Out: 0, Script: scriptSpec{Cls: "empty"}}},
+				Outs: []scriptSpec{{Cls: "pushes", Items: []int{selfItemBase}, Enc: []int{rapid.IntRange(0, 2).Draw(t, "enc")}}}})
+		}
+		for i := rapid.IntRange(0, 2).Draw(t, "noise"); i > 0; i-- {
+			c.Txs = append(c.Txs, c10Tx{LockTime: uint32(90 + i), Ins: []c10In{{Src: -2, Out: uint32(i), Script: scriptSpec{Cls: "empty"}}},
+				Outs: []scriptSpec{{Cls: "p2pkh", Items: []int{2}}}})
+		}
+		c.Preload = []c10Preload{{Kind: "item", A: 5 % len(c.Pool)}}
+		c.PermTag = "random"
+		c.Perm = rapid.Permutation(seqInts(len(c.Txs))).Draw(t, "perm")
+		return c
+	}
 	for ti := 0; ti < ntx; ti++ {
 		var tx c10Tx
 		tx.LockTime = uint32(ti)
